@@ -13,7 +13,7 @@ import random
 from decimal import Decimal, localcontext
 from enum import Enum
 from pathlib import Path
-from typing import Optional
+from typing import Optional, Tuple, Union
 
 from .. import tlc
 from ..common import Outcome, Violation, WORK, NPROC, pool_map
@@ -70,6 +70,10 @@ def canon(tag, v, env):
         return "p(" + canon("int", x, env) + "," + canon("str", y, env) + ")"
     if tag == "module":
         return "m" + str(env["tokens"][id(v)])
+    if tag == "number":          # an un-coerced number: equal numbers (1 and 1.0, 0 and -0.0, 10**20 and 1e20) are one value
+        return "u" + (str(int(v)) if float(v).is_integer() else float(v).hex())
+    if tag == "numlist":
+        return "L(" + ",".join(canon("number", x, env) for x in v) + ")"
     if tag == "complex":
         return "c" + repr(complex(v))
     raise ValueError(tag)
@@ -86,6 +90,7 @@ GEN_SPECS = {
     "GC": ("fresh", None, [("n", "nested", "FACTORY"), ("p", "prefixed", "ONE"), ("s", "scalar", 1)]),
     "GD": ("fresh", None, [("m", "module", None), ("k", "int", 0)]),
     "GX": ("fresh", None, [("c", "complex", None), ("k", "int", 0)]),     # a value the naming serialiser may refuse: calls may raise
+    "GM": ("fresh", None, [("n", "number", None), ("v", "numlist", "LIST")]),
     "GU": ("uncached", None, [("a", "int", None)]),                       # enable_cache=False, result depends on more than its parameters
 }
 MAYRAISE = {"GX"}
@@ -103,7 +108,8 @@ def make_env(h):
         y = h.Param(dtype=str, desc="y", default="q")
     env["NP"] = NP
     dt = {"int": int, "float": float, "str": str, "optint": Optional[int], "optstr": Optional[str], "enum": Color,
-          "prefixed": h.Prefixed, "scalar": h.Scalar, "nested": NP, "module": h.Instantiable, "complex": complex}
+          "prefixed": h.Prefixed, "scalar": h.Scalar, "nested": NP, "module": h.Instantiable, "complex": complex,
+          "number": Union[int, float], "numlist": Tuple[Union[int, float], ...]}
     m1 = h.Module(name="Unit1")
     m2 = h.Module(name="Unit2")
     env["units"] = [m1, m2, h.Module(name="Unit3"), h.Module(name="Unit4")]
@@ -117,6 +123,8 @@ def make_env(h):
             kw = {}
             if default == "NONE":
                 kw["default"] = None
+            elif default == "LIST":
+                kw["default"] = ()
             elif default == "FACTORY":
                 kw["default_factory"] = NP
             elif default == "ONE":
@@ -239,7 +247,7 @@ STRS = ["x", "x b=y", "y b=z", "z", "None", "", "a=1", "x" * 119, "x" * 120, "x"
 
 
 def rich_step(rnd):
-    g = rnd.choice(["GS", "GS", "GB", "GC", "GD", "GA", "GA", "GP", "GN", "GX", "GU"])
+    g = rnd.choice(["GS", "GS", "GB", "GC", "GD", "GA", "GA", "GP", "GN", "GX", "GU", "GM", "GM"])
     form = rnd.choice(["kw", "inst"])
     if g == "GS":
         kw = {"a": rnd.choice(STRS)}
@@ -261,6 +269,10 @@ def rich_step(rnd):
             kw["p"] = rnd.choice([["1", 0], ["1000", -3], ["0.001", 3], ["1.0", 0], ["1", 3], ["1E+3", 0], ["2", 0], ["1000000", -6]])
         if rnd.random() < 0.6:
             kw["s"] = rnd.choice([1, 1.0, "1", "1.0", "1e0", ["1000", -3], "w/5", "w /5", 2])
+    elif g == "GM":
+        kw = {"n": rnd.choice([1, 1.0, 2, 2.0, 2.5, 0, 0.0, -0.0, 10 ** 20, 1e20])}
+        if rnd.random() < 0.4:
+            kw["v"] = tuple(rnd.choice([[1, 2.5], [1.0, 2.5], [1], [1.0], [0.0], [-0.0], [0]]))
     elif g == "GX":
         kw = {"c": rnd.choice([1j, 2j, 1 + 1j]), "k": rnd.choice([0, 1])}
     elif g == "GU":
